@@ -49,6 +49,9 @@ HAND = [
     ("full-repeat", "(define (problem pr) (:domain dom) (:objects o0 o1 - t1) (:init (= (f2 o0 o0) 5) (= (f2 o0 o1) 6)) (:goal (and)))", "D07"),
     ("partial-repeat", "(define (problem pr) (:domain dom) (:objects o3 o4) (:init (= (g3 o3 o4 o3) 1)) (:goal (and)))", "D07"),
     ("goal-repeat", "(define (problem pr) (:domain dom) (:objects o0 - t1) (:init) (:goal (and (= (f2 o0 o0) 1))))", "D07"),
+    ("plain-decimals-with-exponent-repr", "(define (problem pr) (:domain dom) (:objects o0 o1 - t1) (:init (= (f0 o0) 0.00002) "
+                                          "(= (f0 o1) -25000000000000000) (= (h) 25000000000000000) (= (f2 o0 o1) -0.00002)) "
+                                          "(:goal (and (>= (f0 o0) 0.00002) (< (h) -25000000000000000))))", None),
     ("nan-inf-values", "(define (problem pr) (:domain dom) (:objects o0 - t1) (:init (= (h) inf) (= (f0 o0) -inf)) (:goal (and (< (h) inf))))", None),
 ]
 
@@ -186,7 +189,7 @@ def run(args):
     cov["exhaustive"] = False
     cov["rule"] = ("valid problems of C05's generator over pddlgen domains widened with binary/ternary functions (all object list styles, "
                    "constants, subtypes, repeated arguments, zero-arity atoms, all numeral forms, numeric goals), hand-written corner cases "
-                   "(empty sections, goal constants beyond 4 decimals, inf), and the shipped problem files each against its domain "
+                   "(empty sections, goal constants beyond 4 decimals, plain-decimal values whose repr is in exponent form, inf), and the shipped problem files each against its domain "
                    "(quick: files <= 2100 bytes); two export/parse rounds each. Non-trivial: >= 2 init/goal items; distinct by input hash.")
     cov["samples"] = [{"kind": c["input"]["world"]["cases"][0]["kind"],
                        "text": (c["input"]["world"]["cases"][0].get("text") or c["input"]["world"]["cases"][0].get("path"))[:300]}
